@@ -632,7 +632,7 @@ class Gen:
     self.r = r
     self.nan = nan
     self.live = {}
-    self.p = {'suggest': 0.18, 'fail': 0.1, 'delete_study': 0.02, 'owner2': 0.33}
+    self.p = {'suggest': 0.18, 'fail': 0.1, 'delete_study': 0.02, 'owner2': 0.33, 'md': 0.0, 'optimal': 0.0}
     self.p.update(profile or {})
 
   def seq(self, n, recycle=True):
@@ -707,6 +707,10 @@ class Gen:
         continue
       if u >= 0.18 and r.random() < (self.p['suggest'] - 0.18):
         u = 0.0
+      if r.random() < self.p['md']:
+        u = 0.70
+      if r.random() < self.p['optimal']:
+        u = r.choice([0.80, 0.30, 0.30])
       if u < 0.18:
         c = r.choice([1, 1, 2, 3])
         count = r.choice([1, 1, 2, 3])
@@ -798,3 +802,20 @@ def correspond(rep, pid, tag, runs, shard=60):
     msg = 'correspondence service model vs code (%s): %d of %d sequences disagree; first: %r' % (
         tag, len(bad), len(runs), {'label': label, 'steps': [(s[0], s[1]) for s in steps]})
   return msg, bad
+
+
+def c10_e2e(rep, tier, seed, known):
+  from harness import svcrun, svcmon, common as C
+  r = C.rng(seed, 'c10e2e')
+  return svcrun.service_part(rep, 'C10', r, tier, known, monitors=[svcrun.wrap(svcmon.c10_step)],
+                             profile={'md': 0.4}, nseq_quick=30, nseq_thorough=400, tag='e2e')
+
+
+def c11_e2e(rep, tier, seed, known):
+  from harness import svcrun, svcmon, common as C
+  r = C.rng(seed, 'c11e2e')
+
+  def matcher(what, before, rpc, out, after):
+    return 'C11-nan-objective-listed' if what.startswith('NAN:') else None
+  return svcrun.service_part(rep, 'C11', r, tier, known, monitors=[svcrun.wrap(svcmon.c11_step)], known_matcher=matcher,
+                             profile={'optimal': 0.25}, nseq_quick=30, nseq_thorough=400, tag='e2e')
